@@ -204,12 +204,15 @@ func genScen(prop string, seed uint64, idx int) scen {
 			sc.Kind = kSlowFail
 		case p < 84:
 			sc.Kind = kFullLocal
-		case p < 89:
+		case p < 88:
 			sc.Kind = kLocalPeer
-		case p < 95:
+		case p < 93:
 			sc.Kind = kLocalWrite
-		default:
+		case p < 96:
 			sc.Kind = kLocalEof
+		default:
+			sc.Kind = kSlowLocal
+			sc.Reason = r.Chance(80)
 		}
 		return sc
 	}
@@ -258,12 +261,18 @@ func genScen(prop string, seed uint64, idx int) scen {
 			sc.Writers, sc.Per = 1+r.Intn(3), 1+r.Intn(4)
 		}
 		fixK(sc.Writers * sc.Per)
-	case p < 92:
+	case p < 91:
 		sc.Kind = kLocalPeer
-	case p < 96:
+	case p < 94:
 		sc.Kind = kLocalWrite
-	default:
+	case p < 97:
 		sc.Kind = kLocalEof
+	default:
+		sc.Kind = kSlowLocal
+		sc.Reason = r.Chance(80)
+		if total == 0 {
+			sc.Writers, sc.Per = 1+r.Intn(3), 1+r.Intn(2)
+		}
 	}
 	return sc
 }
@@ -297,28 +306,31 @@ func witnesses(prop string) []scen {
 
 // ---- case emission ----
 func emit(w *vh.Writer, sc scen, r result) {
-	calls := make([]string, 0, len(r.Calls))
+	u16 := func(b []byte, v int64) []byte { return append(b, byte(v>>8), byte(v)) }
+	var calls, wire, evs, del []byte
 	for _, c := range r.Calls {
-		calls = append(calls, fmt.Sprintf("mkW %d %d %d %d %d", c.G, c.I, c.Start, c.End, c.Res))
+		calls = u16(calls, int64(c.G))
+		calls = u16(calls, int64(c.I))
+		calls = u16(calls, c.Start)
+		calls = u16(calls, c.End)
+		calls = append(calls, byte(c.Res))
 	}
-	wire := make([]string, 0, len(r.Wire))
 	for _, f := range r.Wire {
-		wire = append(wire, fmt.Sprintf("(%d,%d)", f[0], f[1]))
+		wire = u16(wire, int64(f[0]))
+		wire = u16(wire, int64(f[1]))
 	}
-	evs := make([]string, 0, len(r.Events))
 	for _, e := range r.Events {
-		evs = append(evs, vh.N(e))
+		evs = append(evs, byte(e))
 	}
-	del := make([]string, 0, len(r.Delivered))
 	for _, d := range r.Delivered {
 		if d < 0 {
-			d = 0xffffff
+			d = 0xffff
 		}
-		del = append(del, vh.N(d&0xffff))
+		del = u16(del, int64(d&0xffff))
 	}
-	coq := fmt.Sprintf("mkCase %s %s %s %s %s %d %s %d %s %d %s %s %s %s %s %s %s %s %s %s",
+	coq := fmt.Sprintf("mkCaseS %s %s %s %s %s %d %s %d %s %d %s %s %s %s %s %s %s %s %s %s",
 		sc.Kind, vh.B(sc.Reason), vh.B(sc.React), vh.B(sc.Writers*sc.Per+sc.Late > 0), vh.B(sc.Incoming > 0), sc.Incoming,
-		vh.List(calls), r.ClosedSeq, vh.List(wire), r.Foreign, vh.List(evs), vh.List(del),
+		vh.Hx(calls), r.ClosedSeq, vh.Hx(wire), r.Foreign, vh.Hx(evs), vh.Hx(del),
 		vh.B(r.Closed), vh.B(r.ClosedErr), vh.B(r.ConnClose), vh.B(r.Exited),
 		vh.B(r.LocalDone), vh.B(r.PeerEvent), vh.B(r.FaultHit), vh.B(r.Crash))
 	inflight := false
